@@ -25,6 +25,12 @@ CLAIMS = {
  "C17": ("abstract interpretation of the repo's AST with the shuffling permutation as an opaque symbol vector (aligned-slice oracle) + AST reaching rule",
          "Decides for L in 4..9, every B<=L incl. non-divisible, 1-3 co-batched multi-images with different type sets, device counts and key None/opaque that there are floor(L/B) batches and that every batch of every multi-image and type is rows idx[iB:(i+1)B] of ONE shared index vector regrouped (n_dev,B/n_dev); disjointness of slices of one bijection gives 'at most once per epoch'.",
          "Trusted: jax.random.permutation returns a bijection of range(L); jax.devices() length.", "3/C17"),
+ "C02": ("abstract interpretation of the repo's AST over a symbolic element-provenance domain (result == defining formula of the group action, for every group element)",
+         "Decides for every g in B_D (D=1,2,3: 2, 8, 48 elements), boxes with pairwise distinct extents and extent 1, k<=3, both parities and the three entry points (array, GeometricImage, MultiImage with 0-2 leading axes) that the result equals det(g)^p g^{(x)k} A(g^-1(x'-c')+c) element for element, that D,k,p are kept and that extents and per-axis boundary flags are carried with their axes; composition on sampled pairs; make_all_operators returns exactly the signed permutation matrices.",
+         "Trusted: einsum and integer-array indexing semantics as modelled. Identity, inverse, linearity, bijection and norm preservation are corollaries of the defining formula and not re-derived. Shapes are a finite set (not symbolic).", "3/C02"),
+ "C14": ("abstract interpretation (per-leading-index result == single-image operation) + AST call-graph rule for cross-batch collectives",
+         "Decides for 0-3 leading axes and D=1..3 that times_group_element, norm, average_pool, to_images and (batch_)get_component give at each leading index exactly the single-image operation on that image, and that no jax.lax collective or named batch axis is used by layers/models except BatchNorm under its use_batch_norm guard.",
+         "Trusted: jax.vmap applies its function independently per entry (so per-entry independence of vmapped models reduces to the absence of collectives); BatchNorm is cross-batch by design.", "3/C14"),
 }
 
 NA_REASON = "check not built yet in this session (build in progress); see DESIGN.md section 3 for the planned static rule"
